@@ -85,6 +85,39 @@ def get_finder_for(search_sid, config=None):  # get finder by Sid and optional c
 
 #########################################################
 # Config for GetFromAll
+_getters_by_config = {}  # type: ignore
+
+
+def _create_getters():
+    # from spil_action.libs.files import get_comment, get_size, get_time
+    from spil import GetFromPaths
+    # from spil_plugins.sg.get_sg import GetFromSG
+    from hamlet_plugins.next_get import NextGetter
+
+    attribute_getters = {
+        "next.version": NextGetter()
+        #'comment': get_comment,
+        #'size': get_size,
+        #'time': get_time,
+    }
+
+    getters_by_type = {
+        'project': None,
+        'asset': None,
+        'shot': None,
+        'asset__assettype': None,
+        'asset__state': None,
+        'shot__state': None,
+        # 'asset__asset': GetFromSG(),
+        # 'shot__shot': GetFromSG(),
+        # 'shot__sequence': GetFromSG(),
+        # 'shot__task': GetFromSG(),
+        # 'asset__task': GetFromSG(),
+        'default': GetFromPaths()
+    }
+    return attribute_getters, getters_by_type
+
+
 def get_getter_for(sid, attribute=None, config=None):
     """
     Configuration used by GetFromAll, to define which Getter is used for a given Sid or Search Sid.
@@ -105,36 +138,19 @@ def get_getter_for(sid, attribute=None, config=None):
     Returns:
         A Getter instance for this search, or None is none is defined.
     """
-    # from spil_action.libs.files import get_comment, get_size, get_time
-    from spil import Getter, GetFromPaths
-    # from spil_plugins.sg.get_sg import GetFromSG
-    from hamlet_plugins.next_get import NextGetter
+    from spil import Getter
 
-    attribute_getters = {
-        "next.version": NextGetter()
-        #'comment': get_comment,
-        #'size': get_size,
-        #'time': get_time,
-    }
+    # The Getters are instantiated once per config, so that GetFromAll can group
+    # all the typed searches of one Getter into a single call (which avoids duplicate records).
+    getters = _getters_by_config.get(config)
+    if getters is None:
+        getters = _create_getters()
+        _getters_by_config[config] = getters
+    attribute_getters, getters_by_type = getters
 
     getter: Getter | None = attribute_getters.get(attribute)
     if getter:
         return getter
-
-    getters_by_type = {
-        'project': None,
-        'asset': None,
-        'shot': None,
-        'asset__assettype': None,
-        'asset__state': None,
-        'shot__state': None,
-        # 'asset__asset': GetFromSG(),
-        # 'shot__shot': GetFromSG(),
-        # 'shot__sequence': GetFromSG(),
-        # 'shot__task': GetFromSG(),
-        # 'asset__task': GetFromSG(),
-        'default': GetFromPaths()
-    }
 
     if sid.type in getters_by_type:
         # getter can be explicitly None
